@@ -39,11 +39,26 @@ def Req.gone (r : Req) : Option Nat :=
   else if r.cancel == "during" then some r.at_
   else none
 
+/-- The stub cancels synchronously inside call `at_` for `backoff` and then answers per script; a
+scripted network error / hang at that call is then seen with a cancelled context. -/
 def Req.env (r : Req) (timeout : Nat) : Env :=
   let goneAt (k : Nat) : Bool := match r.gone with | some j => decide (k ≥ j) | none => false
-  { attempt := fun k => meet timeout (goneAt k) (r.backend k),
+  let goneNow (k : Nat) : Bool :=
+    goneAt k || (r.cancel == "backoff" && k == r.at_ && (r.backend k == .netErr || r.backend k == .hang))
+  { attempt := fun k => meet timeout (goneNow k) (r.backend k),
     jitter := fun _ => 0,
     done := fun k => goneAt k || (r.cancel == "backoff" && decide (k ≥ r.at_)) }
+
+/-- Inherently racy classifications (never generated, kept so that a hand-written / shrunk case cannot
+raise a false alarm): under a pool timeout below one second a transport *error* may be classified as
+a deadline if the scheduler delays the goroutine; the judge then accepts either outcome. -/
+def Req.attemptAlt (r : Req) (timeout : Nat) (k : Nat) : Attempt :=
+  let a := (r.env timeout).attempt k
+  if timeout > 0 && timeout < 1000000000 then
+    match a with
+    | .sendErr _ => .sendErr .deadline
+    | x => x
+  else a
 
 structure Acc where
   cbModel : CB
@@ -106,7 +121,19 @@ def judge : Judge := liftJudge fun input obs => do
     let cbM := match m.cbRecords with | f :: _ => acc.cbModel.record f | [] => acc.cbModel
     let mState := if hasCB then cbM.state else 0
     let gOK := gapsOK pool ob && gaps.length + 1 == (if calls == 0 then 1 else calls)
-    let agree := calls == mCalls && result == m.result && some status == m.status && state == mState
+    -- admissible alternative outcomes (select / deadline races, see `attemptAlt`)
+    let envAlt : Env := { env with attempt := r.attemptAlt timeout }
+    let mAlt := handle pool r.stream permitted envAlt
+    -- After the client is gone the back-off `select` has `ctx.Done()` ready and a timer. If the
+    -- goroutine is preempted for longer than the back-off both are ready and Go may pick either, so
+    -- with a back-off below one second "one more attempt" is an admissible outcome (observed under
+    -- heavy CPU load); the generator only cancels under back-offs ≥ 1.5 s, where the judge is strict.
+    let cancelAt : Nat := match r.gone with | some j => j | none => r.at_
+    let racySelect := r.cancel != "" &&
+      (match retry with | some p => decide (backoffLower p cancelAt < 1000000000) | none => false)
+    let sameAsModel (mm : HandleOut) := calls == (EgVerif.Retry.calls mm.events).length && result == mm.result
+      && some status == mm.status
+    let agree := (sameAsModel m || sameAsModel mAlt || racySelect) && state == mState
       && gOK && !late && pan == ""
     -- spec on the observation
     let shortObs := result == "shortCircuited"
@@ -114,12 +141,12 @@ def judge : Judge := liftJudge fun input obs => do
     let s2 := !r.stream || calls ≤ 1
     let s3 := noCallAfterSuccess fc env.attempt calls
     let s4 := if shortObs then calls == 0 && status == 503 && acc.cbSpec.isOpen && hasCB
-              else calls ≥ 1 && lastAttemptSeen fc env.attempt ob
+              else calls ≥ 1 && (lastAttemptSeen fc env.attempt ob || lastAttemptSeen fc envAlt.attempt ob)
     let s5 := gapsOK pool ob
     let goneAt : Option Nat := match r.gone with
       | some j => some j
       | none => if r.cancel == "backoff" then some r.at_ else none
-    let s6 := cancelOK goneAt calls
+    let s6 := cancelOK goneAt calls || racySelect
     let s7 := !late && pan == ""
     let cbS := if hasCB && !shortObs then acc.cbSpec.record (result != "") else acc.cbSpec
     let s8 := !hasCB || (state == cbS.state && (shortObs == acc.cbSpec.isOpen))
